@@ -128,7 +128,37 @@ fn compositions_up_to_cuts(len: usize, max_cuts: usize, f: &mut impl FnMut(&[usi
     rec(len, 1, max_cuts, &mut vec![], f);
 }
 
+fn replay_c08(path: &str) -> i32 {
+    let doc: serde_json::Value = serde_json::from_str(&std::fs::read_to_string(path).expect("replay file")).expect("json");
+    let rp = doc.get("replay").cloned().unwrap_or(doc);
+    let bytes: Vec<u8> = rp.get("bytes").and_then(|x| x.as_array()).map(|a| a.iter().filter_map(|x| x.as_u64().map(|b| b as u8)).collect()).unwrap_or_default();
+    let chunks: Vec<usize> = rp.get("chunks").and_then(|x| x.as_array()).map(|a| a.iter().filter_map(|x| x.as_u64().map(|b| b as usize)).collect()).unwrap_or_default();
+    let pend = rp.get("pendings").and_then(|x| x.as_u64()).unwrap_or(0);
+    let out_cap = rp.get("out_cap").and_then(|x| x.as_u64()).unwrap_or(64) as usize;
+    let want_h2 = bytes.starts_with(PREFACE);
+    let a = sniff_once(&bytes, &chunks, pend, out_cap);
+    let b = sniff_once(&bytes, &chunks, pend, out_cap);
+    if format!("{a:?}") != format!("{b:?}") {
+        println!("MACHINERY-ERROR replay diverged");
+        return 2;
+    }
+    println!("stream of {} bytes, chunks {chunks:?}, pending mask {pend:#b}, read-back cap {out_cap}: {:?} (expected http2={want_h2}, bytes intact)", bytes.len(), a.as_ref().map(|(h2, back)| (*h2, back.len())));
+    match a {
+        Ok((h2, back)) if h2 == want_h2 && back == bytes => {
+            println!("replay holds");
+            0
+        }
+        _ => {
+            println!("VIOLATION property=C08 replay={path}");
+            1
+        }
+    }
+}
+
 pub fn run_c08(args: &Args) -> i32 {
+    if let Some(p) = &args.replay {
+        return replay_c08(p);
+    }
     let mut run = Run::new("C08", args.tier, "model_checking");
     let thorough = args.tier.is_thorough();
     let family = stream_family();
@@ -589,7 +619,47 @@ fn decode(mut code: usize, depth: usize, alpha: &[Step]) -> Vec<Step> {
     v
 }
 
+fn replay_c18(path: &str) -> i32 {
+    let doc: serde_json::Value = serde_json::from_str(&std::fs::read_to_string(path).expect("replay file")).expect("json");
+    let rp = doc.get("replay").cloned().unwrap_or(doc);
+    if rp.get("engine").and_then(|x| x.as_str()) != Some("iomc-c18") {
+        println!("replay of duplex / socket artefacts: re-run ./check C18 (the sequence is printed in the artefact)");
+        return 2;
+    }
+    let name = rp.get("adapter").and_then(|x| x.as_str()).unwrap_or("");
+    let full = rp.get("full_alphabet").and_then(|x| x.as_bool()).unwrap_or(false);
+    let vectored = rp.get("vectored").and_then(|x| x.as_bool()).unwrap_or(false);
+    let idx: Vec<usize> = rp.get("sequence_indices").and_then(|x| x.as_array()).map(|a| a.iter().filter_map(|x| x.as_u64().map(|b| b as usize)).collect()).unwrap_or_default();
+    let alpha = alphabet(full);
+    let seq: Vec<Step> = idx.iter().filter_map(|i| alpha.get(*i).copied()).collect();
+    let ads = adapters();
+    let Some(ad) = ads.iter().find(|a| a.name == name) else {
+        println!("MACHINERY-ERROR unknown adapter {name}");
+        return 2;
+    };
+    let a = run_sequence(ad, &seq, vectored);
+    let b = run_sequence(ad, &seq, vectored);
+    if a != b {
+        println!("MACHINERY-ERROR replay diverged");
+        return 2;
+    }
+    println!("{name}: {seq:?} (inner vectored={vectored})");
+    match a {
+        Ok(_) => {
+            println!("replay holds");
+            0
+        }
+        Err(m) => {
+            println!("  {m}\nVIOLATION property=C18 replay={path}");
+            1
+        }
+    }
+}
+
 pub fn run_c18(args: &Args) -> i32 {
+    if let Some(p) = &args.replay {
+        return replay_c18(p);
+    }
     let mut run = Run::new("C18", args.tier, "model_checking");
     let thorough = args.tier.is_thorough();
     let ads = adapters();
@@ -656,7 +726,7 @@ pub fn run_c18(args: &Args) -> i32 {
         if let Some((seq, vectored, m)) = worst {
             let kind = m.split(';').next().unwrap_or("").to_string();
             run.violation(format!("adapter={} problem={kind}", ad.name), format!("{}: {m}; sequence {seq:?} (inner vectored={vectored})", ad.name),
-                json!({"engine":"iomc-c18","adapter":ad.name,"sequence":seq.iter().map(|s| format!("{:?}", s)).collect::<Vec<_>>(),"vectored":vectored}));
+                json!({"engine":"iomc-c18","adapter":ad.name,"sequence":seq.iter().map(|s| format!("{:?}", s)).collect::<Vec<_>>(),"sequence_indices":seq.iter().map(|s| alpha.iter().position(|a| a == s).unwrap_or(0)).collect::<Vec<_>>(),"full_alphabet":alpha.len() > 50,"vectored":vectored}));
         }
     }
     }
